@@ -84,6 +84,10 @@ def sync_model(w):
         if m.get("conn") != cur:
             m["conn"] = cur
             m["paused"] = t is None
+            if t is not None and getattr(t, "bp_hook", False):
+                # (back-pressure scenarios) this transport may already have pushed back during the replay of the backlog
+                m["paused"] = bool(getattr(t, "told_paused", False))
+                continue
             if t is not None:
                 t.told_paused = False
 
@@ -94,6 +98,39 @@ def sync_model(w):
                         w.model[i]["paused"] = True
                         tr.producer.pauseProducing()
                 t.on_write = on_write
+
+
+def bp_post_init(w):
+    """replacement connections push back at the first write made on them (the replay of the un-acked backlog), budgeted"""
+    post_init(w)
+    w.bp_left = w.cfg.get("bp", 1)
+
+    def on_new_link(link):
+        if len(w.net.links) <= 1:
+            return
+        for end in link.ends:
+            t = end.transport
+            t.bp_hook = True
+            t.told_paused = False
+
+            def on_write(tr, data):
+                if getattr(tr, "armed", False) and tr.producer is not None:
+                    tr.armed = False
+                    tr.told_paused = True
+                    for i in (0, 1):
+                        if w.sides[i].manager._outbound is tr.producer:
+                            w.model[i]["paused"] = True
+                    tr.producer.pauseProducing()
+                    return
+                if tr.producer is not None and w.bp_left > 0 and not tr.told_paused:
+                    w.bp_left -= 1
+                    tr.told_paused = True
+                    for i in (0, 1):
+                        if w.sides[i].manager._outbound is tr.producer:
+                            w.model[i]["paused"] = True
+                    tr.producer.pauseProducing()
+            t.on_write = on_write
+    w.net.on_new_link = on_new_link
 
 
 def extra_events(w):
@@ -280,6 +317,11 @@ def scenarios(tier):
                 tcycles=0, arms=0, lose=1, explored=("app", "tpause", "tresume", "arm", "lose", "conn_ok"), max_depth=80, max_states=600000))
     S.append(mk("producers-during-outage", thr([opens[:2], [("reg_push", 0, True)], [("reg_pull", 1, 2)]]),
                 tcycles=1, arms=1, lose=1, explored=("app", "tpause", "tresume", "arm", "lose", "conn_ok"), dev_bound=3 if q else 4, max_depth=100))
+    # un-acked records + registered producers + a replacement connection that pushes back while the backlog is replayed
+    S.append(mk("backlog-replay-backpressure-dev", thr([opens[:2], [("write", 0, b"u1"), ("write", 0, b"u2")], [("reg_push", 1, True)], [("reg_pull", 0, 2)]]),
+                tcycles=0, arms=0, lose=1, bp=1, app_first=True, post_init=bp_post_init,
+                explored=("app", "deliver", "tresume", "lose"), dev_bound=3 if q else 4, max_depth=120,
+                extra_state=lambda w: (w.model, w.bp_left, [(type(p).__name__, p.ci, p.calls, p.registered) for i in (0, 1) for p in w.prod[i].values()])))
     if not q:
         S.append(mk("push-three-fairness-bfs", thr([opens, [("reg_push", 0, True)], [("reg_push", 1, True)], [("reg_push", 2, True)]]),
                     tcycles=1, arms=2, fairness=True, max_depth=80, max_states=3000000))
